@@ -27,7 +27,7 @@ def parseAddr (s : String) : Option Addr :=
 def parseAcct (s : String) : Option Addr :=
   (parseAddr s).map fun a => if a.ok then { a with s := a.s.toLower } else a
 
-def trackAddr (w : W) (a : Addr) : W := if a.ok then track w a.s else w
+def trackAddr (w : W) (a : Addr) : W := if a.ok then track w a.s.toLower else w
 
 /-- coins with optional (nil) amounts: `-` = nil slice, `[d=5,e=-]` -/
 def parseOptCoins (s : String) : Option (Option (List (String × Option Int))) :=
